@@ -104,19 +104,20 @@ theorem merge_children_core (hc : cfg.Plain c) (hcp : cfg.copy = false) (hmc : c
     (hml : cfg.mergeLeaves = false) (hov : cfg.overriding = false)
     (t : Tree) (k : Nat) (fpar tpar : List Str) (l : Str) (F D : Tree)
     (hu : SibUnique t)
-    (hgf : GoodNames c (t.name :: fpar ++ [l])) (hgt : GoodNames c (t.name :: tpar ++ [l]))
-    (hF : getRel (fpar ++ [l]) t = some F) (hD : getRel (tpar ++ [l]) t = some D)
+    (fs : Str) (hfr : FromOK cfg t fs (fpar ++ [l]) F l) (hgt : GoodNames c (t.name :: tpar ++ [l]))
+    (hD : getRel (tpar ++ [l]) t = some D)
     (h1 : (fpar ++ [l]).isPrefixOf (tpar ++ [l]) = false)
     (h2 : (tpar ++ [l]).isPrefixOf (fpar ++ [l]) = false)
     (hclash : ∀ x ∈ F.children, ∀ y ∈ D.children, y.name ≠ x.name) :
     ∃ t', copyOrShift cfg (st0 t k)
-        [(pathStr c t.name (fpar ++ [l]), some (pathStr c t.name (tpar ++ [l])))] = .ok (st0 t' k) ∧
+        [(fs, some (pathStr c t.name (tpar ++ [l])))] = .ok (st0 t' k) ∧
       SibUnique t' ∧
       (∀ x ∈ F.children, (flat t').filter (under (tpar ++ [l] ++ [x.name]))
           = (flat (stripIf cfg.deleteChildren x)).map (rebase (tpar ++ [l] ++ [x.name]))) ∧
       (flat t').filter (fun e => !underAny (tpar ++ [l]) F.children e)
         = (flat t).filter (fun e => !under (fpar ++ [l]) e) := by
   have hfpne : fpar ++ [l] ≠ [] := by simp
+  have hF := hfr.found
   have hFu : SibUnique F := hu.sub hF
   let kids := F.children.map (stripIf cfg.deleteChildren)
   have hknames : kids.map Tree.name = F.children.map Tree.name := stripIf_map_names _ _
@@ -165,13 +166,11 @@ theorem merge_children_core (hc : cfg.Plain c) (hcp : cfg.copy = false) (hmc : c
             rw [List.isPrefixOf_iff_prefix]; exact ⟨zs.reverse, this⟩
           rw [this] at h1; cases h1
   refine ⟨removeAt (fpar ++ [l]) ta, ?_, hsua.removeAt, ?_, ?_⟩
-  · have hgf' : GoodNames c (t.name :: (fpar ++ [l])) := by simpa using hgf
-    have hgt' : GoodNames c (t.name :: (tpar ++ [l])) := by simpa using hgt
-    rw [copyOrShift_single _ _ (valid_move hc t k fpar tpar l (by simp [hml]) hgf hgt)]
-    simp only [norm, normFrom_pathStr hc _ _ hgf', normTo_pathStr hc _ _ hgt']
+  · have hgt' : GoodNames c (t.name :: (tpar ++ [l])) := by simpa using hgt
+    rw [copyOrShift_single _ _ (valid_move hc (st0 t k) fs (fpar ++ [l]) F tpar l (by simp [hml]) hfr hgt)]
+    simp only [norm, hfr.norm, normTo_pathStr hc _ _ hgt']
     unfold step
-    have hr := resolveFrom_pathStr hc (st0 t k) (fpar ++ [l]) (by simpa using hgf')
-    simp only [st0_tree, hF, Option.map_some] at hr
+    have hr := resolveFrom_of (st0 t k) hfr
     have hne : (fpar ++ [l] == tpar ++ [l]) = false := by
       cases h : (fpar ++ [l] == tpar ++ [l]) with
       | false => rfl
